@@ -323,6 +323,29 @@ pub fn run(tier: &str) -> i32 {
                    "bodies": bodies, "ingestion_budgets": budgets, "upgrade_arguments": ups, "continuation_events": cont}),
         );
     }
+    // fee percentiles across an upgrade: the endpoint mutates a cache, so it is not part of the
+    // side-effect-free probe set; instead fee-carrying histories with an upgrade at any
+    // boundary are judged against the upgrade-oblivious reference of C15 (an answer computed
+    // before the upgrade must still be served after it, e.g. once the fee-paying block has
+    // stabilised and only coinbase-only blocks remain unstable)
+    let fee_parts: Vec<(u32, bool, usize, usize)> = if quick { vec![(2, false, 4, 0), (2, true, 4, 2)] } else { vec![(2, false, 5, 0), (2, true, 5, 3), (3, false, 5, 0)] };
+    for (theta, lazy, n, qs) in fee_parts {
+        let m = crate::props::c15::C15Model {
+            theta,
+            lazy,
+            max_blocks: n,
+            bodies: vec![BODY_CB, BODY_FEE_SEGWIT, BODY_FEE_PAIR],
+            max_upgrades: 1,
+            max_queries: qs,
+        };
+        let e = explore(&m, &Limits::new(2, if quick { 300 } else { 6000 }));
+        rep.absorb(
+            &format!("FEES+Upgrade theta={} lazy={} n={} queries<={}", theta, lazy, n, qs),
+            e,
+            json!({"threshold": theta, "lazy": lazy, "max_blocks": n, "max_upgrades": 1, "max_query_events": qs,
+                   "oracle": "fee percentiles = those of the upgrade-oblivious reference (same caching rule, no upgrade)"}),
+        );
+    }
     // fetch-protocol phases: an upgrade with a request outstanding, with partial pages
     // stored, with a complete response stored (schedule explorer of C13, probe comparison on)
     let sched_parts: Vec<(u32, usize, usize)> = if quick { vec![(2, 2, 3), (1, 1, 2)] } else { vec![(2, 2, 5), (2, 3, 4), (1, 2, 4)] };
@@ -352,7 +375,7 @@ pub fn run(tier: &str) -> i32 {
     rep.floor("upgrades_with_a_complete_response_stored", 2);
     rep.floor("initial_requests_after_reject_or_upgrade", 10);
     rep.floor("liveness_suffixes_checked", 100);
-    rep.rule = "LEDGER/TREE histories with sliced ingestion; one upgrade (no argument / empty / new threshold / lazy fees) at every message boundary; across the upgrade the complete probe set and the complete logical state (syncing flags, per-block metrics and overridden config masked) must be identical; for up to k further events the probe answers must equal those of the run in which the upgrade is replaced by the plain set_config it carries".into();
+    rep.rule = "LEDGER/TREE histories with sliced ingestion; one upgrade (no argument / empty / new threshold / lazy fees) at every message boundary; across the upgrade the complete probe set and the complete logical state (syncing flags, per-block metrics and overridden config masked) must be identical; for up to k further events the probe answers must equal those of the run in which the upgrade is replaced by the plain set_config it carries; fee-carrying histories with an upgrade at any boundary against the upgrade-oblivious fee reference".into();
     rep.bounds = json!({"tier": tier});
     rep.assume("heartbeat protocol phases (request outstanding, partial pages stored, complete response stored) are explored with the schedule explorer (same model as C13) with the probe comparison switched on");
     rep.assume("stable memory is the native vector memory; the wasm heap is not modelled (State is rebuilt from the serialised bytes exactly as in post_upgrade)");
@@ -360,5 +383,6 @@ pub fn run(tier: &str) -> i32 {
     rep.floor("upgrades_mid_ingestion", 20);
     rep.floor("upgrades_with_three_or_more_unstable_blocks", 100);
     rep.floor("continuations_compared", 200);
+    rep.floor("states_after_upgrade_serving_an_answer_no_longer_derivable", 5);
     rep.finish()
 }
